@@ -672,6 +672,11 @@ func checkC10(c *Ctx) Meta {
 	// succeed past a map whose load or header check failed (the C11 open-path rule as a premise — a
 	// missing map A that is waved through makes a half-plotted space look finished)
 	c.Rule("C10-OPENHDR", "OpenDB cannot succeed after a map load without that map's own header having matched the name (the C11 open-path rule, here as the premise of 'never falsely complete')", 4)
+	c.Rule("C10-STATE", "a space's resting state is decided in one place: workspaces are constructed only in the documented initial states by the documented constructor, and every later state comes from a documented transition (the C09 transition extraction as the premise of 'reports plotted only if the table is complete' — a second open path with its own state rule is reported)", 14)
+	c09TransRule = "C10-STATE"
+	checkTransitions(c, pkgCapacity, "capacity")
+	checkTransitions(c, pkgSkchia, "skchia")
+	c09TransRule = "C09-TRANS"
 	c.pushAlias("C11-HEADER", "C10-OPENHDR")
 	checkHeaderVsName(c)
 	c.popAlias()
@@ -1905,6 +1910,26 @@ func checkReadyRules(c *Ctx, rule string) {
 			}
 			bad = "plotted result neither comes from HashMapB.Progress nor is the HashMapA==nil constant"
 		}
+		// the percentage the keeper compares with 100 after a plot run is computed from the two checkpoints (and
+		// the volumes) and from nothing else the running plot writes: a counter that runs ahead of the checkpoint
+		// reports a table complete that was never flushed
+		for _, r := range returnsOf(f) {
+			if len(r.Results) < 3 {
+				continue
+			}
+			for v := range backSlice(r.Results[2]).vals {
+				switch x := v.(type) {
+				case *ssa.Call:
+					if strings.HasPrefix(calleeID(x), "sync/atomic.") || strings.HasPrefix(calleeID(x), "(*sync/atomic.") {
+						bad = "the progress percentage also derives from an atomically read counter, not only from the maps' checkpoints"
+					}
+				case *ssa.FieldAddr:
+					if t, fld, _, ok := fieldOfAddr(x); ok && t == pkgMassDBV1+".MassDBV1" && fld != "HashMapA" && fld != "HashMapB" {
+						bad = "the progress percentage also derives from MassDBV1." + fld + ", not only from the maps' checkpoints"
+					}
+				}
+			}
+		}
 		if bad == "" {
 			c.OK(rule, "MassDBV1.Progress", c.Pos(f.Pos()), "plotted is HashMapB.Progress()'s flag, or true only when map A is absent")
 		} else {
@@ -1963,6 +1988,48 @@ func checkReadyRules(c *Ctx, rule string) {
 				}
 			}
 			if len(choices) == 0 {
+				// the state rule moved into a helper the reference tree does not have (`state: initialState(mdb)`):
+				// the helper asks Progress itself and every return is a state constant, Ready only behind plotted
+				if cl, isCall := strip(st.Val).(*ssa.Call); isCall {
+					if h := cl.Call.StaticCallee(); h != nil && gNewFuncs[h] && progress[0].Parent() == h && plotted != nil {
+						testsH := boolTestsOf(h, plotted)
+						rh := reach(h, nil, func(from, to *ssa.BasicBlock) bool {
+							for _, t := range testsH {
+								if from == t.If.Block() && to == t.TrueSucc {
+									return true
+								}
+							}
+							return false
+						}, nil)
+						okAll, sawReady := len(returnsOf(h)) > 0, false
+						for _, ret := range returnsOf(h) {
+							var k *ssa.Const
+							if len(ret.Results) == 1 {
+								k, _ = strip(ret.Results[0]).(*ssa.Const)
+							}
+							if k == nil || k.Value == nil {
+								okAll = false
+								break
+							}
+							switch k.Value.ExactString() {
+							case "2":
+								sawReady = true
+								if len(testsH) == 0 || rh(ret) {
+									bad = true
+									c.Bad(rule, key, c.Pos(ret.Pos()), "state Ready is chosen on a path where the plotted flag is not known to be true")
+								}
+							case "0":
+							default:
+								bad = true
+								c.Bad(rule, key, c.Pos(ret.Pos()), "a state other than Registered/Ready is assigned on open")
+							}
+						}
+						if okAll {
+							found = found || sawReady
+							continue
+						}
+					}
+				}
 				bad = true
 				c.Bad(rule, key, c.Pos(st.Pos()), "workspace state on open is not a constant")
 				continue
